@@ -70,6 +70,11 @@ def files_of_property(pid, cfg, props):
         if p["id"] == pid:
             for f in p["anchors"]["files"]:
                 files.add(f)
+    # source files the property's code path runs through that no unit reads and the property is not anchored in
+    # (`Host for http::Uri`, the `Resolve` trait, crate roots): nothing in them is under contract — they are hashed, so a
+    # change there is answered "undecided" instead of going unnoticed
+    for f in pc.get("extra_files", []):
+        files.add(f)
     return sorted(files)
 
 
